@@ -255,6 +255,8 @@ def scenarios(pid, tier, seed):
         return [
             {"args": ["scen", "family=cli", "per=%d" % (8 if q else 40), "walkpos=%d" % (40 if q else 1500), S], "shards": 16},
             {"args": ["scen", "family=games", "len=%d" % (10 if q else 60), "allpairs=%d" % (60 if q else 5), "walkpos=%d" % (4 if q else 120), S], "shards": 16},
+            # a placement met again with the OTHER side to move inside one Game (triangulation), first position's labels typed again
+            {"args": ["scen", "family=games", "len=7", "tempo=1", "names=bare-kings,pawn-ending,endgame-rp,castle-gives-check,single-reply,rooks-same-file,knights-no-shared", "walkpos=%d" % (8 if q else 200), "maxpieces=8", S], "shards": 16},
             # the real `chess pvp` loop in a child process: miniature games typed as coordinates / printed notation with
             # rejected inputs in between; every board it prints and its final verdict are compared with the model
             {"args": ["scen", "family=pvp", "count=%d" % (12 if q else 240), S], "shards": 6},
